@@ -263,7 +263,7 @@ def warm_tie():
         fcntl.flock(lk, fcntl.LOCK_EX)
         return _tie_build([])
 
-def translator_tie(tier, seed, vals, n_exh, hvals, corr_violations):
+def translator_tie(tier, seed, vals, n_exh, hvals, corr_violations, prebuilt=None):
     """The second tie of C19, run on every check: regenerate the Gallina definitions from the source that is being
     checked, re-check the refinement proofs and the C19_gen_* theorems against them, and ALSO evaluate the generated
     functions on the graphs / HRGs of the correspondence stream against the implementation's outputs and the oracles.
@@ -272,7 +272,8 @@ def translator_tie(tier, seed, vals, n_exh, hvals, corr_violations):
     os.makedirs(os.path.join(BUILD, "gen"), exist_ok=True)
     with open(os.path.join(BUILD, "gen", ".lock"), "w") as lk:
         fcntl.flock(lk, fcntl.LOCK_EX)
-        res = _tie_build([])
+        # steps (a)-(c); run() starts them in a thread while the correspondence stream is being generated
+        res = prebuilt.result() if prebuilt is not None else _tie_build([])
         status = res["status"]
         cov = {k: v for k, v in res.items() if k not in ("detail", "scratch", "stamp")}
         cov["translator_tie"] = status
@@ -371,6 +372,8 @@ def _gen_code_text(c):
             11: "raises / runs out of fuel (None) where the implementation returns normally"}.get(c, "verdict %d" % c)
 
 def run(tier, seed):
+    from concurrent.futures import ThreadPoolExecutor
+    tie_future = ThreadPoolExecutor(1).submit(warm_tie)     # translate + compile the tie concurrently (own lock)
     rng = random.Random(seed)
     violations = []
     cases = []
@@ -458,7 +461,7 @@ def run(tier, seed):
                         dict(nonterminals=hvals[0][0], rules=hvals[0][1], impl_graph=hvals[0][2])],
                size_histogram=sizes, kernel_reevaluated=nk + nk2,
                open_items=[])
-    tie_cov, tie_viol = translator_tie(tier, seed, vals, n_exh, hvals, violations)
+    tie_cov, tie_viol = translator_tie(tier, seed, vals, n_exh, hvals, violations, prebuilt=tie_future)
     cov["translator_tie"] = tie_cov
     cov["tied_by_translation"] = TIED_BY_TRANSLATION
     cov["tied_by_correspondence_only"] = TIED_BY_CORRESPONDENCE_ONLY
